@@ -259,6 +259,7 @@ func lcServe(ip *interpreter.Interpreter, u string, vary string, jail string, lo
 	return
 }
 
+// the stub origin: X-Status = HTTP status code + 1000 * freshness-header variant (spec/Lifecycle.tla Variant)
 func lcBackend() (*httptest.Server, string) {
 	server := httptest.NewServer(http.HandlerFunc(func(w http.ResponseWriter, r *http.Request) {
 		st := 200
@@ -267,8 +268,21 @@ func lcBackend() (*httptest.Server, string) {
 				st = n
 			}
 		}
-		w.Header().Set("Cache-Control", "max-age=100")
-		w.WriteHeader(st)
+		switch st / 1000 {
+		case 0:
+			w.Header().Set("Cache-Control", "max-age=100")
+		case 1:
+			w.Header().Set("Cache-Control", "max-age=0")
+		case 2:
+			w.Header().Set("Cache-Control", "s-maxage=0")
+		case 3:
+			w.Header().Set("Surrogate-Control", "max-age=100")
+			w.Header().Set("Cache-Control", "max-age=0")
+		case 4:
+		case 5:
+			w.Header().Set("Cache-Control", "s-maxage=100")
+		}
+		w.WriteHeader(st % 1000)
 		w.Write([]byte("OK")) // nolint:errcheck
 	}))
 	u, _ := url.Parse(server.URL)
